@@ -133,12 +133,18 @@ public:
 	}
 
 	EventQueueBase(const EventQueueBase & other)
-		: super(other)
+		:
+			super(other),
+			queueEmptyCounter(0),
+			queueNotifyCounter(0)
 	{
 	}
 
 	EventQueueBase(EventQueueBase && other) noexcept
-		: super(std::move(other))
+		:
+			super(std::move(other)),
+			queueEmptyCounter(0),
+			queueNotifyCounter(0)
 	{
 	}
 
